@@ -15,12 +15,102 @@ import (
 	"math/rand"
 	"strings"
 
+	"github.com/rkosegi/yaml-toolkit/dom"
 	"github.com/rkosegi/yaml-toolkit/pipeline"
 )
 
 type c12Seq struct {
 	Data  W        `json:"data"`
 	Roots []c12Act `json:"roots"`
+	// THE CALLER EDITS THE DATA DOCUMENT BETWEEN TWO RUNS ("exec.d — the single mutable data document all actions
+	// read and write": the container the caller handed to WithData() is the caller's as well): before run Before
+	// (>= 1) the value at Path (a top-level key or a dotted path of plain keys) is replaced by Val, or removed when
+	// Val is absent — through the container the harness holds, not through the executor.  The run that follows reads
+	// the document as it is THEN: its conditions, messages and templates equal the reference's on the edited data.
+	Edits []c12Edit `json:"edits,omitempty"`
+}
+
+type c12Edit struct {
+	Before int    `json:"before"`
+	Path   string `json:"path"`
+	Val    W      `json:"val,omitempty"`
+}
+
+// c12EditsBefore: the edits the caller makes before run i, in order; only edits of plain dotted paths count
+func (p *c12Seq) editsBefore(i int) []c12Edit {
+	var out []c12Edit
+	for _, e := range p.Edits {
+		if e.Before != i || i < 1 || e.Path == "" {
+			continue
+		}
+		plain := true
+		for _, seg := range strings.Split(e.Path, ".") {
+			if !refKeyRe.MatchString(seg) {
+				plain = false
+			}
+		}
+		if plain {
+			out = append(out, e)
+		}
+	}
+	return out
+}
+
+// c12ApplyEditsWire: the edits on a document in wire form (value semantics: a fresh document)
+func c12ApplyEditsWire(doc W, edits []c12Edit) W {
+	if len(edits) == 0 {
+		return doc
+	}
+	root, ok := wireCont(deepCopyW(doc))
+	if !ok {
+		return doc
+	}
+	for _, e := range edits {
+		if e.Val == nil {
+			refRemoveAt(root, e.Path)
+		} else {
+			refAddAt(root, e.Path, e.Val)
+		}
+	}
+	return map[string]any{"m": root}
+}
+
+// c12ApplyEditsDom: the same edits made by the caller on the container it handed to WithData()
+func c12ApplyEditsDom(doc dom.ContainerBuilder, edits []c12Edit) {
+	for _, e := range edits {
+		if e.Val == nil {
+			doc.RemoveAt(e.Path)
+		} else {
+			doc.AddValueAt(e.Path, wireNode(e.Val))
+		}
+	}
+}
+
+// c12GenEdits: what a caller does between two runs: flips one of the flags the conditions read, takes away what the
+// template / set operations of the earlier runs left (so that the next run starts from a clean slate), puts a
+// boolean where a later condition reads a template's result
+func c12GenEdits(r *rand.Rand, n int, tpls []string) []c12Edit {
+	var out []c12Edit
+	for i := 1; i < n; i++ {
+		if r.Intn(2) == 0 {
+			continue
+		}
+		for j, m := 0, 1+r.Intn(2); j < m; j++ {
+			switch x := r.Intn(8); {
+			case x < 2:
+				out = append(out, c12Edit{Before: i, Path: "flagT", Val: plainWire(false)})
+			case x < 4:
+				out = append(out, c12Edit{Before: i, Path: "flagF", Val: plainWire(true)})
+			case x == 4:
+				out = append(out, c12Edit{Before: i, Path: pick(r, []string{"t", "w", "keep.y"})})
+			case x == 5 && len(tpls) > 0:
+				out = append(out, c12Edit{Before: i, Path: "t." + pick(r, tpls), Val: plainWire(pick(r, []string{"true", "false", "x"}))})
+			default:
+				out = append(out, c12Edit{Before: i, Path: pick(r, []string{"flagT", "flagF"}), Val: plainWire(r.Intn(2) == 0)})
+			}
+		}
+	}
+	return out
 }
 
 // template texts that parse and fail while being executed, after having produced output (see c12TemplateText)
@@ -56,6 +146,17 @@ func c12SeqBasics() []c12Seq {
 			out = append(out, c12Seq{Data: c12Data(), Roots: []c12Act{first, second, third}})
 		}
 	}
+	// the smallest sequences in which the CALLER edits the document between two runs of one action: a guarded
+	// child whose condition reads a flag the caller flips (the run before ended with a log / with a set operation)
+	for _, flag := range []string{"flagT", "flagF"} {
+		for _, last := range []string{"log", "set"} {
+			guarded := c12Act{Name: "g", Order: 1, When: sp("{{ ." + flag + " }}"), Ops: []c12Op{c12MkOp("set", "g")}}
+			tail := c12Act{Name: "z", Order: 2, Ops: []c12Op{c12MkOp(last, "z")}}
+			root := c12Act{Name: "r", Ops: []c12Op{c12MkOp("log", "r")}, Children: []c12Act{tail, guarded}}
+			out = append(out, c12Seq{Data: c12Data(), Roots: []c12Act{root, root},
+				Edits: []c12Edit{{Before: 1, Path: "w"}, {Before: 1, Path: flag, Val: plainWire(flag == "flagF")}}})
+		}
+	}
 	return out
 }
 
@@ -88,6 +189,10 @@ func c12GenSeq(r *rand.Rand) c12Seq {
 		b, _ := json.Marshal(again)
 		_ = json.Unmarshal(b, &cp)
 		p.Roots = append(p.Roots, cp)
+	}
+	if r.Intn(3) == 0 {
+		// the caller edits the document between the runs
+		p.Edits = c12GenEdits(r, len(p.Roots), tpls)
 	}
 	return p
 }
@@ -130,6 +235,7 @@ func c12EvalSeq(c *Ctx, raw []byte) {
 	var mdata any = p.Data
 	if !c.searchMode {
 		for i := range p.Roots {
+			mdata = c12ApplyEditsWire(mdata, p.editsBefore(i))
 			m, ok := c.Model("exec", map[string]any{"data": mdata, "root": p.Roots[i], "fuel": c12Fuel}).(map[string]any)
 			if !ok || m["model_error"] != nil {
 				mtr, merrs, mdata = []any{"model-error", m}, nil, nil
@@ -139,7 +245,18 @@ func c12EvalSeq(c *Ctx, raw []byte) {
 			mtr, merrs, mdata = append(mtr, tr...), append(merrs, m["err"]), m["data"]
 		}
 	}
-	ref := refExecActs(p.Data, p.Roots, refDefaultFns)
+	// the document the flags are read from, per run: the initial one with the caller's edits so far
+	flagsAt := make([]W, len(p.Roots))
+	nEdits := 0
+	for i, cur := 0, p.Data; i < len(p.Roots); i++ {
+		cur = c12ApplyEditsWire(cur, p.editsBefore(i))
+		flagsAt[i] = cur
+		nEdits += len(p.editsBefore(i))
+	}
+	if nEdits > 0 {
+		c.Dist("seq:the-caller-edits-the-document-between-runs")
+	}
+	ref := refExecActsEdited(p.Data, p.Roots, refDefaultFns, 20000, p.editsBefore)
 	for _, variant := range []string{"struct", "yaml"} {
 		var specs []pipeline.Action
 		decoded := true
@@ -177,7 +294,7 @@ func c12EvalSeq(c *Ctx, raw []byte) {
 		if !decoded {
 			continue
 		}
-		run := c12Exec(p.Data, specs, true)
+		run := c12ExecEdited(p.Data, specs, true, p.editsBefore)
 		if strings.HasPrefix(run.text, "runaway") {
 			if !c.searchMode {
 				c.Direct("terminates("+variant+")", false, run.text)
@@ -198,7 +315,7 @@ func c12EvalSeq(c *Ctx, raw []byte) {
 			if i > 0 {
 				vv = "(" + variant + ",later-action-on-the-same-executor)"
 			}
-			c12DirectRoot(c, p.Data, &p.Roots[i], run, rt, run.errs[i], vv)
+			c12DirectRoot(c, flagsAt[i], &p.Roots[i], run, rt, run.errs[i], vv)
 			if run.errs[i] != nil {
 				failed = true
 			}
@@ -238,4 +355,60 @@ func c12DoesNotParse(t string) bool {
 		}
 	}
 	return false
+}
+
+// c12ExecEdited: as c12Exec — one Execute call per action on ONE executor — with the caller's edits (if any) made
+// on the data container between the calls.
+func c12ExecEdited(data W, acts []pipeline.Action, wantSnap bool, editsBefore func(i int) []c12Edit) *c12RunRes {
+	run := &c12RunRes{rec: &c12Rec{wantSnap: wantSnap}}
+	run.outcome, run.text = guard(func() {
+		run.data = wireContainer(data)
+		run.rec.data = run.data
+		ex := c12NewExecutorFns(run.rec, run.data, refDefaultFns)
+		for i, a := range acts {
+			if editsBefore != nil {
+				c12ApplyEditsDom(run.data, editsBefore(i))
+			}
+			run.errs = append(run.errs, ex.Execute(a))
+		}
+	})
+	run.tr = run.rec.finish()
+	return run
+}
+
+// refExecActsEdited: the reference for it (see refExecActs), with an event budget of its own
+func refExecActsEdited(data W, roots []c12Act, fns map[string]string, budget int, editsBefore func(i int) []c12Edit) (res *refRes) {
+	res = &refRes{}
+	defer func() {
+		if r := recover(); r != nil {
+			u, ok := r.(refUnsupported)
+			if !ok {
+				panic(r)
+			}
+			res.OK, res.Why = false, u.why
+		}
+	}()
+	root, ok := wireCont(deepCopyW(data))
+	if !ok {
+		refOut("data is not a container")
+	}
+	s := &refRun{data: root, defs: map[string]*c12Act{}, fns: fns, budget: budget}
+	errs := make([]any, 0, len(roots))
+	for i := range roots {
+		if editsBefore != nil {
+			for _, e := range editsBefore(i) {
+				if e.Val == nil {
+					refRemoveAt(s.data, e.Path)
+				} else {
+					refAddAt(s.data, e.Path, e.Val)
+				}
+			}
+		}
+		errs = append(errs, s.execAct(&roots[i]))
+	}
+	res.Errs, res.Ev, res.Data, res.OK = errs, s.ev, map[string]any{"m": s.data}, true
+	if res.Ev == nil {
+		res.Ev = [][]any{}
+	}
+	return res
 }
